@@ -30,7 +30,7 @@ ASSUMPTIONS = ('iteration order over shards is shard-major by design: compared a
 
 SHARDS = [1, 2, 3, 8, 13]
 FANOUT_OPS = {'set', 'setitem', 'add', 'get', 'getitem', 'read', 'contains', 'touch', 'incr', 'decr', 'pop', 'delete',
-              'delitem', 'len', 'iter', 'reversed', 'expire', 'evict', 'clear', 'stats', 'cull', 'ADV'}
+              'delitem', 'len', 'iter', 'reversed', 'expire', 'evict', 'clear', 'stats', 'cull', 'ADV', 'FREEZE'}
 
 
 def plan(tier):
@@ -47,6 +47,11 @@ def history(dc, sc, res, rng, shards, cfg, label):
         for op, args, kw in steps:
             if op == 'ADV':
                 clock.advance(args[0])
+                continue
+            if op == 'FREEZE':
+                clock.frozen = args[0]
+                if not args[0]:
+                    clock.advance(gen.TICK)
                 continue
             got = drv.step(op, *args, **kw)
             res.count('evaluations')
